@@ -695,7 +695,7 @@ def c11_i(ctx):
             continue
         for i, t in enumerate(fg):
             try:
-                G = sd.convert(t, alg, leaf)
+                G = sd.convert(t, alg, sd.opaque_leaf(leaf))
             except sd.Clipped as e:
                 ctx.check(False, gr, 'gradient = derivative', '', '{}.evaluate_gradient contains '
                           'the clipping operator {} that evaluate does not have'.format(
@@ -785,7 +785,7 @@ def c11_j(ctx):
             ctx.undecided('expected one finite return in each nested function ({} / {})'.format(
                 len(fl), len(fg)))
         FL = sd.convert(fl[0][1], alg, leaf_for(L))
-        FG = sd.convert(fg[0][1], alg, leaf_for(G))
+        FG = sd.convert(fg[0][1], alg, sd.opaque_leaf(leaf_for(G)))
     except Unsupported as e:
         ctx.undecided('nested density functions outside the fragment: {}'.format(e))
     ctx.check(alg.same(FL, alg.log(E)), L, 'sampled log density = log(evaluate(theta))', '',
@@ -793,3 +793,48 @@ def c11_j(ctx):
     ctx.check(alg.same(FG, alg.D(alg.log(E))), G, 'gradient = evaluate_gradient / evaluate', '',
               'the gradient handed to NUTS is not evaluate_gradient(theta) / evaluate(theta), the '
               'derivative of the sampled log density', fn=G, node=fg[0][0])
+
+
+@obligation('C11-k', 'T14 T8', 'an additive cost is scaled identically in value and gradient',
+            floor=1,
+            necessary='evaluate_gradient must be the derivative of evaluate: another factor on '
+                      'the user\'s gradient than on the user\'s function gives the optimiser a '
+                      'wrong jacobian (BOLFIRE uses scale = -1)')
+def c11_k(ctx):
+    from .. import symdiff as sd
+    from ..ratfun import Rat, Unsupported
+    cf = ctx.cls('elfi.methods.bo.utils:CostFunction')
+    ev = ctx.own_method(cf, 'evaluate')
+    gr = ctx.own_method(cf, 'evaluate_gradient')
+    alg = sd.Algebra()
+    c = alg.base('c', 'dc')
+
+    def leaf_for(f):
+        x = ('param', f.params[1])
+
+        def leaf(t):
+            if t[0] == 'call' and t[1][0] == 'attr' and t[1][1] in (('param', 'self'),
+                                                                    ('name', 'self')) and \
+                    t[2] and t[2][0] in (x, ('call', ('global', 'numpy.atleast_2d'), (x,), ())):
+                if t[1][2] == 'function':
+                    return c
+                if t[1][2] == 'gradient':
+                    return Rat.sym('dc')
+            if t[0] == 'attr' and t[1] in (('param', 'self'), ('name', 'self')):
+                return alg.const('self.' + t[2])
+            return None
+        return leaf
+    re_, rg = returns(ev), returns(gr)
+    if len(re_) != 1 or len(rg) != 1:
+        ctx.undecided('CostFunction: expected single returns')
+    try:
+        F = sd.convert(ctx.ex(ev).term(re_[0].value), alg, leaf_for(ev))
+        G = sd.convert(ctx.ex(gr).term(rg[0].value), alg, sd.opaque_leaf(leaf_for(gr)))
+        ok = alg.same(G, alg.D(F))
+    except sd.Clipped as e:
+        ok = False
+    except Unsupported as e:
+        ctx.undecided('CostFunction outside the fragment: {}'.format(e))
+    ctx.check(ok, gr, 'cost gradient = derivative of the cost value', 'scale * gradient(x)',
+              'CostFunction.evaluate_gradient is not the derivative of CostFunction.evaluate '
+              '(different scale factors)', fn=gr, node=rg[0])
